@@ -5,6 +5,13 @@
 //! `$path` restricts the dispatch path of the unsigned algorithm: all | small (n <= d or one-digit divisor) | knuth.
 
 #[macro_export]
+macro_rules! c03_path_flag {
+    (small, small) => { true };
+    (knuth, knuth) => { true };
+    ($a:ident, $b:ident) => { false };
+}
+
+#[macro_export]
 macro_rules! c03_path {
     (all, $ad:expr, $bd:expr, $N:expr) => {};
     (small, $ad:expr, $bd:expr, $N:expr) => {{
@@ -37,8 +44,8 @@ macro_rules! c03_u_main {
             let r = dval_u128(&(a % b).dg()) as $X;
             assert!(r < d, "remainder below the divisor");
             assert!(q <= n && q * d + r == n, "n == q * d + r");
-            $crate::reach!(q > 1 && r != 0 && ($N == 1 || bd[$N - 1] != 0 || stringify!($path) == "small"), "general case");
-            $crate::reach!(n < d || stringify!($path) == "knuth", "dividend below divisor");
+            $crate::reach!(q > 1 && r != 0 && ($N == 1 || bd[$N - 1] != 0 || $crate::c03_path_flag!(small, $path)), "general case");
+            $crate::reach!(n < d || $crate::c03_path_flag!(knuth, $path), "dividend below divisor");
         });
     };
 }
